@@ -143,4 +143,64 @@ func TypedValue.Compute#sequential
   ensures err != nil ==> kvHas == old(kvHas) && kvVal == old(kvVal) && t.valueCached == old(t.valueCached) && t.hasCached == old(t.hasCached)
   -- a computed value that cannot be encoded is a failure
   ensures computeCalled && !computeFailed && !encOK(computed) ==> err != nil
+
+-- TypedStore: every method is the raw operation on kenc(key) under the codec; every codec or
+-- store failure is reported; a failing call leaves the store unchanged.
+type TypedStore
+  callback keyToBytes(k) (b, err)
+    ensures err == nil <==> kencOK(k)
+    ensures err == nil ==> content(b) == kenc(k)
+  callback bytesToKey(b) (k, n, err)
+    ensures err == nil <==> kdecOK(content(b))
+    ensures err == nil ==> k == kdec(content(b))
+  callback valueToBytes(v) (b, err)
+    ensures err == nil <==> encOK(v)
+    ensures err == nil ==> content(b) == enc(v)
+  callback bytesToValue(b) (v, n, err)
+    ensures err == nil <==> decOK(content(b))
+    ensures err == nil ==> v == dec(content(b))
+
+func TypedStore.Get
+  requires t != nil && t.kv != nil
+  ensures err == nil ==> kencOK(key) && sel(kvHas, kenc(key)) && decOK(sel(kvVal, kenc(key))) && value == dec(sel(kvVal, kenc(key)))
+  ensures !kencOK(key) ==> err != nil
+  ensures kencOK(key) && !sel(kvHas, kenc(key)) ==> err != nil
+  ensures kencOK(key) && sel(kvHas, kenc(key)) && !decOK(sel(kvVal, kenc(key))) ==> err != nil
+
+func TypedStore.Has
+  requires t != nil && t.kv != nil
+  ensures err == nil ==> kencOK(key) && (has <==> sel(kvHas, kenc(key)))
+  ensures !kencOK(key) ==> err != nil
+
+func TypedStore.Set
+  requires t != nil && t.kv != nil
+  modifies ghost(kvHas), ghost(kvVal)
+  ensures err == nil ==> kencOK(key) && encOK(value) && kvHas == upd(old(kvHas), kenc(key), true) && kvVal == upd(old(kvVal), kenc(key), enc(value))
+  ensures err != nil ==> kvHas == old(kvHas) && kvVal == old(kvVal)
+  ensures !kencOK(key) || !encOK(value) ==> err != nil
+
+func TypedStore.Delete
+  requires t != nil && t.kv != nil
+  modifies ghost(kvHas), ghost(kvVal)
+  ensures err == nil ==> kencOK(key) && kvHas == upd(old(kvHas), kenc(key), false)
+  ensures err != nil ==> kvHas == old(kvHas) && kvVal == old(kvVal)
+  ensures !kencOK(key) ==> err != nil
+
+-- the consumer closures of Iterate / IterateKeys: a decode failure stops the iteration and is
+-- recorded in innerErr (which Iterate returns); otherwise the user callback decides and innerErr
+-- is left alone
+func TypedStore.Iterate$1
+  requires t != nil && *t != nil && innerErr != nil && callback != nil
+  callback callback(k, v) (adv)
+  modifies *innerErr
+  ensures !kdecOK(content(key)) ==> !r0 && *innerErr != nil
+  ensures kdecOK(content(key)) && !decOK(content(value)) ==> !r0 && *innerErr != nil
+  ensures kdecOK(content(key)) && decOK(content(value)) ==> *innerErr == old(*innerErr)
+
+func TypedStore.IterateKeys$1
+  requires t != nil && *t != nil && innerErr != nil && callback != nil
+  callback callback(k) (adv)
+  modifies *innerErr
+  ensures !kdecOK(content(key)) ==> !r0 && *innerErr != nil
+  ensures kdecOK(content(key)) ==> *innerErr == old(*innerErr)
 @*/
